@@ -3,6 +3,8 @@ import math
 import os
 import tempfile
 
+import datetime
+
 import numpy
 
 from .. import fixtures, gridcases
@@ -21,7 +23,7 @@ META = {
                     "events simulation-based results must be bit-identical; under (b)/(c) simulation-based distributions are compared through the statistic only"],
     "deciding": ["pair:events", "pair:catalogs", "pair:cells"],
 }
-META["added"] = 'Added: the same forecast written to .dat files in different cell orders and loaded by the real loader, catalogs carrying a region that lists the cells in another order, mirrored-cell benchmark on dyadic rates (exact opposite-sign ties for the rank test), in-place re-ordering of an already evaluated catalog object, near-tie quantile skip. only forecast B re-listed; fixed seed 0.'
+META["added"] = 'Added: the same forecast written to .dat files in different cell orders and loaded by the real loader, catalogs carrying a region that lists the cells in another order, mirrored-cell benchmark on dyadic rates (exact opposite-sign ties for the rank test), in-place re-ordering of an already evaluated catalog object, near-tie quantile skip. only forecast B re-listed; fixed seed 0. non-C rate tables in cell permutations, origin times travelling with the events.'
 MANIFEST = {
     "technique": "metamorphic recorder pairing two real executions of each public evaluation on permuted-but-equivalent inputs; equality oracle on statistic / analytic quantile / multiset of simulation-free distributions, bit equality under event permutation with a fixed seed",
     "level_text": "For generated forecasts/catalogs each of the 18 evaluation functions is executed on the original input and on event-, catalog- and cell-permuted equivalents (Cartesian and quadtree regions, events on cell boundaries); statistics and analytic quantiles must agree to rounding, simulation-free distributions as multisets, and seeded simulation-based results bit-for-bit under event permutation.",
@@ -161,6 +163,11 @@ def build_gridded(case, ratesB, cell_perm=None, event_order=None, quad=None, per
         return fa, fb, cat
     fa = fixtures.gridded_forecast(rates[perm], reg, mags, name="A")
     fb = fixtures.gridded_forecast(B[perm], reg, mags, name="B")
+    lay = case.get("layout")
+    if lay == "F":          # the re-ordered tables are kept in Fortran order (what a pandas round trip of the table produces)
+        fa._data, fb._data = numpy.asfortranarray(fa._data), numpy.asfortranarray(fb._data)
+    elif lay == "T":
+        fa._data, fb._data = numpy.ascontiguousarray(fa._data.T).T, numpy.ascontiguousarray(fb._data.T).T
     return fa, fb, cat
 
 
@@ -269,10 +276,19 @@ def ex_catalog(ctx, fc, seed=0):
              ("catalog.M", ce.magnitude_test, {"verbose": False}, "free"), ("catalog.PL", ce.pseudolikelihood_test, {"verbose": False}, "free"),
              ("catalog.RM", ce.resampled_magnitude_test, {"seed": seed}, "sim"), ("catalog.MLL", ce.MLL_magnitude_test, {"seed": seed}, "sim")]
     try:
+        if not fc.get("obs_below") and len(fc["obs"]):
+            # origin times travel with the events: 40 days apart starting in late 2009, so some events lie before the forecast's start and some
+            # after its end, and a re-ordered catalog is not in time order
+            fc = dict(fc, obs_times=[1259000000000 + 3456000000 * q for q in range(len(fc["obs"]))])
+
         def run_all(fcx):
             out = {}
             for name, fn, kw, kind in tests:
                 f, obs, reg, mags = c10.build(fcx, "memory", tmp)
+                f.start_time = datetime.datetime(2010, 1, 1, tzinfo=datetime.timezone.utc)
+                f.end_time = datetime.datetime(2011, 1, 1, tzinfo=datetime.timezone.utc)
+                if fcx.get("obs_times") and obs.event_count == len(fcx["obs_times"]):
+                    obs.catalog["origin_time"][:] = numpy.asarray(fcx["obs_times"], dtype="i8")
                 ok, res, tb = ctx.call(fn, f, obs, **kw)
                 out[name] = sig(res, kind) if ok else ("raised", type(res).__name__)
             return out
@@ -291,6 +307,8 @@ def ex_catalog(ctx, fc, seed=0):
             for p in [rng.permutation(nobs), numpy.arange(nobs)[::-1]]:
                 v = dict(fc)
                 v["obs"] = [fc["obs"][i] for i in p]
+                if fc.get("obs_times"):
+                    v["obs_times"] = [fc["obs_times"][i] for i in p]
                 variants.append(("events", v))
         for which, v in variants:
             other = run_all(v)
